@@ -2,7 +2,7 @@
 # usage: tools/all.sh <quick|thorough> [Cxx ...]   -- runs the checks one after another and prints one summary line each
 tier="${1:-quick}"; shift
 cd "$(dirname "$0")/.."
-props="$@"; [ -z "$props" ] && props="C01 C02 C03 C04 C05 C06 C07 C09 C10 C11 C12 C13 C14 C16 C17 C18 C20"
+props="$@"; [ -z "$props" ] && props="C01 C02 C03 C04 C05 C06 C07 C08 C09 C10 C11 C12 C13 C14 C16 C17 C18 C20"
 for p in $props; do
   s=$(date +%s)
   out=$(./run $p $tier 2>&1); code=$?
